@@ -33,6 +33,8 @@ pub trait Gen: Sized + 'static {
 thread_local! {
     /// outputs may carry a non-UTC timestamp (a backend can hand the adapter any OffsetDateTime); inputs cannot
     pub static ALLOW_OFFSET_TIMESTAMPS: std::cell::Cell<bool> = const { std::cell::Cell::new(false) };
+    /// alternatives include the empty value of lists carried in a wrapper element (XML codec check only)
+    pub static ALLOW_EMPTY_WRAPPED_LISTS: std::cell::Cell<bool> = const { std::cell::Cell::new(false) };
 }
 
 fn set<T: Clone + Send + Sync + 'static>(label: &str, v: T) -> (String, Mutator<T>) {
